@@ -8,6 +8,7 @@
 -/
 import PasfmtModel.Proofs.MachineCover
 import PasfmtModel.Proofs.Tree
+import PasfmtModel.Proofs.TreeSorted
 
 namespace Pasfmt.C14
 
@@ -211,5 +212,21 @@ namespace Pasfmt.C14
     (so, with `machine_lines_wellformed`, no token can be in two lines) -/
 theorem single_pass_without_conditionals (kinds : List RawKind) (h : ∀ k ∈ kinds, condKind? k = none) :
     passes kinds = [List.range kinds.length] := passes_noCond kinds h
+
+/-- every conditional-directive pass of every file lists token positions in strictly increasing
+    order, all below the number of tokens (the directive tree lays its sections out in token order) -/
+theorem passes_sorted_in_range (kinds : List RawKind) :
+    ∀ p ∈ passes kinds, p.Pairwise (· < ·) ∧ ∀ i ∈ p, i < kinds.length :=
+  fun p hp => ⟨passes_sorted kinds p hp, passes_in_range kinds p hp⟩
+
+/-- hence the well-formedness of the line builder's output holds for every pass of every file and
+    every control flow of the parser, without a side condition on the pass -/
+theorem file_lines_wellformed (kinds : List RawKind) (pass : List Nat) (hp : pass ∈ passes kinds)
+    (ops : List POp) (s : MState) (h : MState.init.run kinds pass ops = some s) :
+    (∀ l ∈ s.lines, l.tokens.Pairwise (· < ·)) ∧
+    (∀ l ∈ s.lines, ∀ t ∈ l.tokens, t < kinds.length) ∧
+    (s.lines.flatMap (·.tokens)).Nodup := by
+  obtain ⟨h1, h2, h3⟩ := machine_lines_wellformed kinds pass (passes_sorted kinds pass hp) ops s h
+  exact ⟨h1, fun l hl t ht => passes_in_range kinds pass hp t (h2 l hl t ht), h3⟩
 
 end Pasfmt.C14
